@@ -68,7 +68,7 @@ func genC06(r *vh.Runner) {
 			}
 		}
 	}
-	maxLen := r.Pick(2, 3)
+	maxLen := r.Pick(2, 4)
 	var seqs [][]step
 	var rec func(cur []step)
 	rec = func(cur []step) {
@@ -95,7 +95,7 @@ func genC06(r *vh.Runner) {
 		})
 	}
 	r.Case("exhaustive/complete", map[string]any{"sequences": len(seqs), "max_len": maxLen}, func(c *vh.Case) { r.Count("exhaustive_spaces_completed", 1) })
-	nr := r.Pick(300, 20000)
+	nr := r.Pick(300, 400000)
 	for i := 0; i < nr; i++ {
 		r.Case(fmt.Sprintf("random/%d", i), map[string]any{"i": i}, func(c *vh.Case) {
 			rng := vh.NewRand(r.Seed, "c06-rand", i)
